@@ -623,6 +623,14 @@ func (f *Frame) sliceOp(x *ssa.Slice, st *State, reach string) {
 			f.vals[x] = f.changeSort(tmp, "Coins", x, st)
 			return
 		}
+		if s == "Str" {
+			// a byte-array literal sliced into []byte: byte strings are values
+			if base.Ptr.N == 0 {
+				f.vals[x] = Val{Sort: "Str", Term: strLit(""), GoT: x.Type()}
+				return
+			}
+			g.fail("%s: slicing a non-empty byte array literal is not supported", f.fn.Name())
+		}
 		f.nopanic("slice_in_range", reach, fmt.Sprintf("(and (<= 0 %s) (<= %s %s) (<= %s %s))", lo, lo, hi, hi, n), x.Pos())
 		sv := Val{Sort: s, Term: g.def(f.name(x), s, fmt.Sprintf("(mk_%s %s %s (- %s %s) (- %s %s))", s, base.Ptr.Loc, lo, hi, lo, n, lo)), GoT: x.Type()}
 		if lo == "0" && hi == n {
@@ -784,6 +792,8 @@ type loopInfo struct {
 	phiVals  map[*ssa.Phi]Val
 	havocked map[string]bool
 	havCells map[*Cell]bool
+	autoPreserve []string // heaps in which the body only allocates fresh objects
+	body map[*ssa.BasicBlock]bool
 	backConds []string // path conditions of the back edges (vacuity guard: some iteration must be able to complete)
 }
 
@@ -937,6 +947,12 @@ func (f *Frame) bindParams(env *Env) {
 			env.vars[fv.Name()] = v
 		}
 	}
+	// ghost variables of the contract (declared once, at function entry)
+	if f.spec != nil && f.depth == 0 {
+		for _, v := range f.spec.Vars {
+			env.vars[v.Name] = Val{Sort: v.Sort, Term: "ghost_" + v.Name}
+		}
+	}
 }
 
 func (f *Frame) loopHeader(h *ssa.BasicBlock, st *State, reach string) (*State, string) {
@@ -978,6 +994,10 @@ func (f *Frame) loopHeader(h *ssa.BasicBlock, st *State, reach string) (*State, 
 		li.phiVals[phi] = nv
 	}
 	body := f.loopBlk[h]
+	li.body = map[*ssa.BasicBlock]bool{}
+	for b := range body {
+		li.body[b] = true
+	}
 	// syntactic write set
 	for b := range body {
 		for _, ins := range b.Instrs {
@@ -1011,7 +1031,20 @@ func (f *Frame) loopHeader(h *ssa.BasicBlock, st *State, reach string) (*State, 
 	// `preserves H.x`: objects of heap x that existed when the loop was entered keep their contents (the loop only
 	// allocates and fills fresh ones); checked like an invariant
 	allocAtEntry := g.heapGet(st, "$alloc")
-	for _, pz := range spec.Preserves {
+	preserves := append([]string{}, spec.Preserves...)
+	for _, ap := range li.autoPreserve { // heaps in which the body only allocates (decoding into fresh slices)
+		dup := false
+		for _, pz := range preserves {
+			if strings.TrimPrefix(pz, "H.") == ap {
+				dup = true
+			}
+		}
+		if !dup && !li.havocked[ap] {
+			preserves = append(preserves, "H."+ap)
+		}
+	}
+	sort.Strings(preserves)
+	for _, pz := range preserves {
 		name := strings.TrimPrefix(pz, "H.")
 		li.havocked[name] = true
 		g.heapGet(st, name)
@@ -1042,7 +1075,7 @@ func (f *Frame) loopHeader(h *ssa.BasicBlock, st *State, reach string) (*State, 
 	g.allocBound = ""
 	li.hdrState = hs.clone()
 	li.preEntry = map[string]string{}
-	for _, pz := range spec.Preserves {
+	for _, pz := range preserves {
 		name := strings.TrimPrefix(pz, "H.")
 		before := g.heapGet(st, name)
 		li.preEntry[name] = before
@@ -1083,7 +1116,13 @@ func (f *Frame) havocTarget(addr ssa.Value, st *State, li *loopInfo) {
 				return
 			case *types.Pointer:
 				at := a.X.Type().Underlying().(*types.Pointer).Elem().Underlying().(*types.Array)
-				li.havocked[g.sorts.heapForElem(g.sorts.sortOf(at.Elem()))] = true
+				hn := g.sorts.heapForElem(g.sorts.sortOf(at.Elem()))
+				if al, ok := a.X.(*ssa.Alloc); ok && li.body != nil && li.body[al.Block()] {
+					// an array allocated by the body itself (variadic arguments, literals): the heap only grows
+					li.autoPreserve = append(li.autoPreserve, hn)
+					return
+				}
+				li.havocked[hn] = true
 				return
 			}
 			return
@@ -1281,6 +1320,16 @@ func (f *Frame) callEffects(c *ssa.CallCommon, li *loopInfo, depth int, argMap m
 			if strings.Contains(c.Method.Name(), "Unmarshal") && len(c.Args) >= 2 {
 				if mi, ok := c.Args[1].(*ssa.MakeInterface); ok {
 					f.havocTarget(resolve(mi.X), nil, li)
+					// the decoded message gets freshly allocated slices: those heaps only grow
+					if pt, ok := mi.X.Type().Underlying().(*types.Pointer); ok {
+						if info := g.sorts.structs[g.sorts.sortOf(pt.Elem())]; info != nil {
+							for _, fld := range info.Fields {
+								if _, isSlice := g.sorts.sliceEl[fld.Sort]; isSlice {
+									li.autoPreserve = append(li.autoPreserve, g.sorts.heapFor(fld.Sort))
+								}
+							}
+						}
+					}
 				}
 			}
 			return
@@ -1404,6 +1453,12 @@ func (f *Frame) callEffects(c *ssa.CallCommon, li *loopInfo, depth int, argMap m
 			for i, p := range callee.Params {
 				if i < len(actuals) {
 					am[p] = resolve(actuals[i])
+				}
+			}
+			if li.body != nil {
+				// the callee runs inside the loop body: its own allocations are fresh in every iteration
+				for _, b := range callee.Blocks {
+					li.body[b] = true
 				}
 			}
 			for _, b := range callee.Blocks {
